@@ -174,6 +174,21 @@ CLAIMED = {
                 "proved; list-valued header values are outside the alphabet (D15).",
         "technique": "Lean 4 proof (list recursion over the soapheaders shapes) + differential correspondence with expat as reader",
     },
+    "C15": {
+        "text": "Lean theorems: Base64 decode(encode bs) = bs for every byte string (RFC 4648 alphabet); a server "
+                "decoding the Basic credentials per RFC 7617 recovers exactly user and password for all byte strings "
+                "(no colon in the user); witness that the URL-safe alphabet breaks this (D9, fixed in /repo); every "
+                "status outside 2xx maps to TransportError carrying that status; the body is transformed only for "
+                "gzip/deflate. PARTIAL: sockets, urllib, cookie policy, gzip/zlib are runtime. A loopback HTTP server "
+                "records raw requests: body bytes (0..64 KiB, non-UTF-8, both content codings each way), every caller "
+                "header, Authorization decoded with a standard decoder (printable Unicode credentials), statuses "
+                "200..599 with bodies, cookie histories (set/replace/expire/other path), refused/reset/silent "
+                "connections, non-ASCII URLs rejected before any I/O.",
+        "design_ref": "DESIGN.md section 6 C15",
+        "note": "only the credential encoding, status mapping and coding selection are proved; everything on the "
+                "socket is observed by the harness (differential against the server's view).",
+        "technique": "Lean 4 proof (Base64 round trip by recursion on 3-byte groups, omega) + loopback-server observation",
+    },
 }
 
 NOT_YET = "check not built yet in this round (design in DESIGN.md section 6); not claimed"
